@@ -255,9 +255,9 @@ for name, fn, shape, clause, muts, us in [
       M("set-last-byte-skipped", "    for (int32_t i = 0; i < janet_string_length(str); i++)\n        bitmap_set(bitmap, str[i]);", "    for (int32_t i = 0; i < janet_string_length(str) - 1; i++)\n        bitmap_set(bitmap, str[i]);", "bitmap")], {}),
     ("range", "spec_range", "range", "(range \"az\"): [RULE_RANGE, lo | hi << 16]; (range r1 r2 ...): [RULE_SET, bitmap] with bit c set iff c lies in one of the ranges; every range string has 2 bytes lo <= hi, else raise; wf_peg clauses `room >= 2` / `room >= 9`",
      [M("range-hi-shift-wrong", "        uint32_t arg = str[0] | (str[1] << 16);", "        uint32_t arg = str[0] | (str[1] << 8);", "range word"),
-      M("range-set-excludes-hi", "            for (uint32_t c = str[0]; c <= str[1]; c++)", "            for (uint32_t c = str[0]; c < str[1]; c++)", "bitmap")], {"spec_range.0": 10, "spec_range.1": 4})]:
+      M("range-set-excludes-hi", "            for (uint32_t c = str[0]; c <= str[1]; c++)", "            for (uint32_t c = str[0]; c < str[1]; c++)", "bitmap")], {"spec_range.0": 6, "spec_range.1": 4})]:
     spec(name, fn, shape, clause, muts, functions=[fn, "bitmap_set", "peg_getrange", "peg_getset", "reserve", "emit_rule"], entry="h_charset",
-         unwindset=us, bound="set string <= 3 bytes / at most 2 ranges (any lo, span hi - lo < 8); " + BOUND)
+         unwindset=us, bound="set string <= 3 bytes / at most 2 ranges (any lo, span hi - lo < 4); " + BOUND)
 
 # ------------------------------------------------------------------ (a) compiler: peg_compile1, one unit per kind of pattern
 C1REPL = ["peg_compile1:h_compile1_main", "janet_table_get:h_table_get", "janet_table_rawget:h_table_rawget", "janet_table_get_ex:h_table_get_ex",
